@@ -24,7 +24,18 @@ def valid_doc(seed, dm):
                 p = rng.choice(pars); a, b = p.states()[0], p.states()[1]
                 pick = lambda r: rng.choice([r] + [q for q in ch.proper() if C.is_descendant(q, r)])
                 s.initial_attr = [pick(a).id, pick(b).id]; s.initial_elem = None
+    # an inline invoked machine is a document of its own: it may use the ids of this one (and transitions between them)
+    if rng.random() < 0.3:
+        host = [q for q in ch.proper() if q.kind == 'state']
+        if host:
+            h = rng.choice(host); ids = [q.id for q in ch.proper() if q.kind == 'state'][:2]
+            inner = ''.join('<state id="%s"><transition event="ev%d" target="%s"/></state>' % (i, k, ids[(k + 1) % len(ids)]) for k, i in enumerate(ids))
+            h.onentry.append([('xml', '<log label="INV"/>')])
+            ch._invoke = (h.id, '<invoke type="scxml"><content><scxml xmlns="http://www.w3.org/2005/07/scxml" version="1.0" datamodel="null">%s</scxml></content></invoke>' % inner)
     xml = C.render(ch, dm)
+    if getattr(ch, '_invoke', None):
+        hid, inv = ch._invoke
+        xml = re.sub(r'(<state id="%s"[^>]*>)' % re.escape(hid), lambda m: m.group(1) + inv, xml, count=1)
     # id-less states: atomic states/finals that nothing refers to (the id attribute is optional)
     referenced = set(re.findall(r"\b(s\d+|h\d+)\b", ' '.join(re.findall(r'(?:target|initial|cond|expr)="([^"]*)"', xml))))
     idless = 0
@@ -180,6 +191,10 @@ def work(job):
                             if s.get('conf') is not None and not s.get('noop') and s.get('ev') != '#completion':
                                 why = C.is_legal_configuration(model, s['conf'])
                                 if why:
+                                    # an engine defect that C02 judges (shared history store) is not a statement about validation
+                                    from vf.checks import c02
+                                    if c02.key_for(model, 'illegal-configuration', s) == 'nested-history-shared-store':
+                                        rec['engine_defect'] = 'nested-history-shared-store'; break
                                     rec['bad'].append(('unsound:illegal-configuration:' + kind, dict(rep, configuration=s['conf'], reason=why))); break
                 if eng == 'large': totrans.append((cid, xml, kind, dm))
         out.append(rec)
